@@ -35,29 +35,35 @@ def wrap(exe, n):
 
 def mpi_leg(ctx, exe, n, name, args, deadline):
     """one launch; a launch that does not come back is investigated: its in-progress case is replayed alone with a 4x limit"""
-    prog = '/verif/out/res/C17-%s-progress.json' % name
+    prog = '/verif/out/res/C17-%s-%d-progress.json' % (name, os.getpid())
     if os.path.exists(prog):
         os.unlink(prog)
-    before = len(ctx.broken)
     ctx.run_engine(wrap(exe, n), ['--name', name, '--outdir', '/verif/out', '--deadline', str(deadline), '--progress', prog] + args, label=name, timeout=deadline + 150, env=ENV)
-    if len(ctx.broken) > before and 'timed out' in ctx.broken[-1] and os.path.exists(prog):
-        subprocess.call(['pkill', '-x', 'C17-c17mpi'])
-        ctx.broken.pop()
-        rp = '/verif/out/replay/C17-%s-hang.json' % name
-        txt = open(prog).read().strip()
-        open(rp, 'w').write(txt[:txt.rfind('}') + 1] + '\n')
-        try:
-            r = subprocess.run([wrap(exe, n), '--replay', rp, '--outdir', '/verif/out'], env=ENV, capture_output=True, text=True, timeout=4 * 150)
-            hung = False
-        except subprocess.TimeoutExpired:
-            subprocess.call(['pkill', '-x', 'C17-c17mpi']); hung = True; r = None
-        if hung:
-            ctx.violation(rp, 'multi-rank launch never terminated; the in-progress case alone hangs as well (4x limit)')
-        elif r.returncode == 1:
-            ctx.violation(rp, 'multi-rank launch never terminated; replay of the in-progress case fails: ' + r.stdout[-300:])
-        else:
-            ctx.notes.append('%s: launch exceeded its time limit under load; the in-progress case passes alone (not a hang)' % name)
-            ctx.add_leg(name=name, leg=name, states=0, transitions=0, executions=0, nontrivial=0, distinct_outcomes=0, exhaustive=False, samples=['launch cut by the time limit'])
+    mine = [b for b in ctx.broken if b.startswith(name + ': timed out')]
+    if not mine:
+        return
+    subprocess.call(['pkill', '-9', '-f', '--', '--progress ' + prog])
+    for b in mine:
+        ctx.broken.remove(b)
+    if not os.path.exists(prog) or os.path.getsize(prog) == 0:
+        ctx.notes.append('%s: launch did not reach its first case within the time limit (overloaded machine); nothing claimed for this leg' % name)
+        ctx.add_leg(name=name, leg=name, states=0, transitions=0, executions=0, nontrivial=0, distinct_outcomes=0, exhaustive=False, samples=['launch cut by the time limit before the first case'])
+        return
+    rp = '/verif/out/replay/C17-%s-%d-hang.json' % (name, os.getpid())
+    txt = open(prog).read().strip()
+    open(rp, 'w').write(txt[:txt.rfind('}') + 1] + '\n')
+    try:
+        r = subprocess.run([wrap(exe, n), '--replay', rp, '--outdir', '/verif/out'], env=ENV, capture_output=True, text=True, timeout=4 * 150)
+        hung = False
+    except subprocess.TimeoutExpired:
+        subprocess.call(['pkill', '-9', '-f', '--', '--replay ' + rp]); hung = True; r = None
+    if hung:
+        ctx.violation(rp, 'multi-rank launch never terminated; the in-progress case alone hangs as well (4x limit)')
+    elif r.returncode == 1:
+        ctx.violation(rp, 'multi-rank launch never terminated; replay of the in-progress case fails: ' + r.stdout[-300:])
+    else:
+        ctx.notes.append('%s: launch exceeded its time limit under load; the in-progress case passes alone (not a hang)' % name)
+        ctx.add_leg(name=name, leg=name, states=0, transitions=0, executions=0, nontrivial=0, distinct_outcomes=0, exhaustive=False, samples=['launch cut by the time limit'])
 
 def check(ctx):
     e1 = build1(ctx); em = buildm(ctx)
